@@ -1495,6 +1495,7 @@ def oracle(ctx: Ctx, budget: str):
     parts.run("round 3 parts", _oracle_round3, ctx, ag, ang, bg, budget)
     parts.run("argument combinations", _oracle_combinations, ctx, ag, ang, bg, budget)
     parts.run("round 4 parts", _oracle_round4, ctx, ag, ang, bg, budget)
+    parts.run("round 5 parts", _oracle_round5, ctx, ag, ang, bg, budget)
     # ---- random grids -----------------------------------------------------------------------
     def _part0():
         for k in range(24 if budget == "small" else 400):
@@ -2482,6 +2483,296 @@ def _oracle_round4(ctx: Ctx, ag, ang, bg, budget):
                 if sum(x[1] for x in want) <= 9000:
                     _run_combo(ctx, "atomgrid.AtomGrid:arguments", what, call, want, sig["__init__"]["method"], seed0, zero, a["pts"], a["wts"], False, dict(wit, call=call))
     parts.run("class 15: omitted / None / explicit default", explicit_defaults)
+    parts.finish()
+
+
+# ----------------------------------------------------------------------------
+# round 5 (AGENT_ROUND5 classes 21 - 26), implementation side; scenarios are self-contained replay sources
+# ----------------------------------------------------------------------------
+SHELL_REF = """from scipy.spatial.transform import Rotation
+def check(g, rp, rw, degs, seed, center, method, what):
+    # the property, shell by shell, from the unit grids, SciPy's matrices and the radial nodes (independent of any state of the library)
+    rp, rw, center = np.asarray(rp, dtype=float), np.asarray(rw, dtype=float), np.asarray(center, dtype=float)
+    idx = [int(x) for x in g.indices]
+    assert len(idx) == len(rp) + 1 and idx[0] == 0 and idx[-1] == g.size == len(g.weights) == len(g.points), f'{what}: index table / size'
+    unit = dict()
+    for i, d in enumerate(degs):
+        if d not in unit:
+            a = AngularGrid(degree=d, method=method); unit[d] = (a.degree, a.points.copy(), a.weights.copy())
+        dd, U, om = unit[d]
+        assert int(g.degrees[i]) == dd and idx[i + 1] - idx[i] == len(om), f'{what}: shell {i} at r={rp[i]!r} has degree {int(g.degrees[i])} / {idx[i + 1] - idx[i]} points, requested {d}'
+        R = Rotation.random(random_state=seed + i).as_matrix() if seed else np.eye(3)
+        rel = rp[i] * (U @ R)
+        tol = 1e-11 * max(rp[i], abs(center).max()) + 1e-11 * rp[i] + 1e-300
+        assert np.all(abs(g.points[idx[i]:idx[i + 1]] - (center + rel)) <= tol), f'{what}: shell {i} at r={rp[i]!r}: points are not centre + r_i (u_j R_i)'
+        ww = om * rw[i] * rp[i] ** 2
+        assert np.all(abs(g.weights[idx[i]:idx[i + 1]] - ww) <= 1e-12 * abs(ww) + 2e-323), f'{what}: shell {i} at r={rp[i]!r}: weights are not w_i r_i^2 omega_j'
+def check_shell(g, i, rp, rw, degs, seed, method, what):
+    a = AngularGrid(degree=degs[i], method=method)
+    R = Rotation.random(random_state=seed + i).as_matrix() if seed else np.eye(3)
+    for rsq in (True, False):
+        sg = g.get_shell_grid(i, r_sq=rsq)
+        wref = a.weights * rw[i] * (rp[i] ** 2 if rsq else 1.0)
+        assert np.all(abs(sg.points - rp[i] * (a.points @ R)) <= 1e-11 * rp[i] + 1e-300) and np.all(abs(sg.weights - wref) <= 1e-12 * abs(wref) + 2e-323), (
+            f'{what}: get_shell_grid({i}, r_sq={rsq}) does not carry shell {i}')
+"""
+
+# class 21: counts just above block sizes
+SCEN_SIZES = SNIP_HEAD + SHELL_REF.replace('{', '{{').replace('}', '}}') + """n, method, degs_cycle, seed, center = {n}, {method!r}, {cycle!r}, {seed}, {center!r}
+rs = np.random.RandomState({rseed})
+rp = rs.uniform(0.0, 6.0, n); rp[rs.randint(n)] = 0.0
+rw = rs.uniform(0.1, 2.0, n)
+degs = [degs_cycle[i % len(degs_cycle)] for i in range(n)]
+g = AtomGrid(OneDGrid(rp, rw, (0, np.inf)), degrees=degs, center=center, rotate=seed, method=method)
+res = [AngularGrid(degree=d, method=method).degree for d in degs_cycle]
+rdegs = [res[i % len(res)] for i in range(n)]
+check(g, rp, rw, rdegs, seed, center, method, f'{{n}} shells')
+for i in (0, 1, n // 2, n - 2, n - 1):
+    check_shell(g, i, rp, rw, rdegs, seed, method, f'{{n}} shells')
+# reduction over all points: additivity over a split of the same values
+f = rs.uniform(-1, 1, g.size); k = g.size // 3 + 1
+tot = g.integrate(f); part = np.sum(g.weights[:k] * f[:k]) + np.sum(g.weights[k:] * f[k:])
+assert abs(tot - part) <= 1e-10 * np.sum(abs(g.weights)) + 1e-300, f'integrate over {{g.size}} points is not the sum over a split of the points'
+# sector lookup, element-wise: every radius on its own, and f(all) == concat(f(part1), f(part2))
+bounds = np.array({bounds!r}); dsec = np.array({dsec!r})
+m = {nlook}
+rr = rs.uniform(0, 1.2 * bounds.max(), m); rr[::7] = bounds[rs.randint(len(bounds), size=len(rr[::7]))]
+full = AtomGrid._find_degrees_for_radial_points(rr, bounds, dsec)
+cut = m // 2 + 3
+two = np.concatenate([AtomGrid._find_degrees_for_radial_points(rr[:cut], bounds, dsec), AtomGrid._find_degrees_for_radial_points(rr[cut:], bounds, dsec)])
+want = dsec[[int(np.sum(bounds < r)) for r in rr[-2000:]]]
+assert full.shape == (m,) and np.array_equal(full, two) and np.array_equal(full[-2000:], want), f'sector lookup on {{m}} radii differs from the lookup radius by radius'
+gp = AtomGrid.from_pruned(OneDGrid(rp, rw, (0, np.inf)), 1.0, r_sectors=bounds, d_sectors={dsec_small!r}, method=method)
+wantp = [AngularGrid(degree={dsec_small!r}[int(np.sum(bounds < r))], method=method).degree for r in rp[-300:]]
+assert len(gp.degrees) == n and [int(d) for d in gp.degrees[-300:]] == wantp, f'from_pruned on {{n}} radial points: the last shells do not have the degree of their sector'
+"""
+
+# classes 23, 25: narrow / extended precision arguments given directly; one array object modified in place between two calls
+SCEN_DIRECT = SCEN_HEAD + """pts, wts = np.array({pts!r}), np.array({wts!r})
+degs, sizes, cen, rotate, method = {degs!r}, {sizes!r}, {cen!r}, {rotate}, {method!r}
+radius, rsect, dsec, ssec = {radius!r}, {rsect!r}, {dsec!r}, {ssec!r}
+degs2, sizes2, cen2, rsect2, dsec2, ssec2, pts2, wts2 = {degs2!r}, {sizes2!r}, {cen2!r}, {rsect2!r}, {dsec2!r}, {ssec2!r}, {pts2!r}, {wts2!r}
+def rg(p=pts, w=wts): return OneDGrid(np.array(p, dtype=float), np.array(w, dtype=float), (0, np.inf))
+def calls(D, S, C, RS, DS, SS, RG, rad=radius):
+    return [tup(AtomGrid(RG, degrees=D, center=C, rotate=rotate, method=method)), tup(AtomGrid(RG, None, sizes=S, center=C, rotate=rotate, method=method)),
+            tup(AtomGrid.from_pruned(RG, rad, RS, DS, center=C, rotate=rotate, method=method)),
+            tup(AtomGrid.from_pruned(RG, rad, RS, None, s_sectors=SS, center=C, rotate=rotate, method=method)),
+            list(AtomGrid._generate_atomic_grid(RG, D, rotate=rotate, method=method)),
+            [np.asarray(AtomGrid._find_degrees_for_radial_points(RG.points, np.asarray(RS) * rad, np.asarray(DS)))]]
+names = ('AtomGrid(degrees=)', 'AtomGrid(sizes=)', 'from_pruned(d_sectors=)', 'from_pruned(s_sectors=)', '_generate_atomic_grid', '_find_degrees_for_radial_points')
+ref = calls(list(degs), list(sizes), list(cen), list(rsect), list(dsec), list(ssec), rg())
+# class 23: the arguments themselves in a narrower / wider kind (values exactly representable in every kind used)
+for fk, ik in {kinds!r}:
+    fa = lambda a: np.array(a, dtype=fk)
+    ia = lambda a: np.array(a, dtype=ik)
+    A = [ia(degs), ia(sizes), fa(cen), fa(rsect), ia(dsec), ia(ssec)]
+    keep = [a.tobytes() for a in A]
+    rad = np.dtype(fk).type(radius)
+    for rep in (1, 2):   # the second call with the very same argument objects
+        got = calls(A[0], A[1], A[2], A[3], A[4], A[5], rg(), rad)
+        for nm, a, b in zip(names, got, ref):
+            assert same(a, b), f'{{nm}} with {{fk}} / {{ik}} arguments (call {{rep}} with the same argument objects) differs from the float64 / list computation'
+            assert all(np.asarray(x).dtype == np.float64 for x in a[:2]) or nm.startswith('_find'), f'{{nm}}: points / weights are not float64 for {{fk}} arguments'
+        assert [a.tobytes() for a in A] == keep, f'an argument of kind {{fk}} / {{ik}} was modified by the calls'
+    # the shell index in every integer kind (narrow kinds only with a small seed: `rotate + index` is evaluated in the kind of the index
+    # and NumPy refuses a seed that does not fit it - OverflowError, a rejection; observation reported, not asserted)
+    for k in ((np.int8, np.uint8, np.int16, np.uint64, np.intp) if rotate <= 100 else (np.int64, np.uint64, np.intp)):
+        gg = AtomGrid(rg(), degrees=list(degs), center=list(cen), rotate=rotate, method=method)
+        a, b = gg.get_shell_grid(k(len(degs) - 1), r_sq=False), gg.get_shell_grid(len(degs) - 1, r_sq=False)
+        assert np.array_equal(a.points, b.points) and np.array_equal(a.weights, b.weights), f'get_shell_grid(index of kind {{k.__name__}}) differs'
+# class 25: the same array objects, overwritten in place between two rounds of calls
+D, S, C = np.array(degs, dtype=np.int64), np.array(sizes, dtype=np.int64), np.array(cen, dtype=float)
+RS, DS, SS = np.array(rsect, dtype=float), np.array(dsec, dtype=np.int64), np.array(ssec, dtype=np.int64)
+P, W = np.array(pts, dtype=float), np.array(wts, dtype=float)
+RG = OneDGrid(P, W, (0, np.inf))
+first = calls(D, S, C, RS, DS, SS, RG)
+for nm, a, b in zip(names, first, ref):
+    assert same(a, b), f'{{nm}} on arrays differs from the computation on lists'
+D[:] = degs2; S[...] = sizes2; C *= 0.0; C += cen2; RS[:] = rsect2; DS[:] = dsec2; SS[:] = ssec2
+second = calls(D, S, C, RS, DS, SS, RG)
+ref2 = calls(list(degs2), list(sizes2), list(cen2), list(rsect2), list(dsec2), list(ssec2), rg())
+for nm, a, b in zip(names, second, ref2):
+    assert same(a, b), f'{{nm}}: after the caller overwrote its argument arrays in place (same objects, new contents) the answer is not the one for the new contents'
+# ... and the arrays behind the radial grid object (a new OneDGrid over the same, rescaled arrays)
+P *= 0.0; P += pts2; W[...] = wts2
+third = calls(D, S, C, RS, DS, SS, OneDGrid(P, W, (0, np.inf)))
+ref3 = calls(list(degs2), list(sizes2), list(cen2), list(rsect2), list(dsec2), list(ssec2), rg(pts2, wts2))
+for nm, a, b in zip(names, third, ref3):
+    assert same(a, b), f'{{nm}}: a radial grid over the same point / weight arrays with new contents gives another grid than one over fresh copies'
+"""
+
+# class 26: two instances that differ in one hidden dependency, used in either order
+SCEN_PAIR = SNIP_HEAD + SHELL_REF.replace('{', '{{').replace('}', '}}') + """A = {A!r}
+B = {B!r}
+def build(s):
+    return AtomGrid(OneDGrid(np.array(s['pts']), np.array(s['wts']), (0, np.inf)), degrees=list(s['degs']), center=list(s['cen']), rotate=s['rot'], method=s['method'])
+def full(g, s, what):
+    res = [AngularGrid(degree=d, method=s['method']).degree for d in s['degs']]
+    check(g, s['pts'], s['wts'], res, s['rot'], s['cen'], s['method'], what)
+    for i in range(len(res)):
+        check_shell(g, i, s['pts'], s['wts'], res, s['rot'], s['method'], what)
+    v = g.integrate(np.ones(g.size))
+    assert abs(v - np.sum(g.weights)) <= 1e-10 * np.sum(abs(g.weights)) + 1e-300, f'{{what}}: integrate(1)'
+    sp = g.convert_cartesian_to_spherical()
+    assert sp.shape == (g.size, 3) and np.all(abs(sp[:, 0] - np.repeat(np.array(s['pts']), np.diff(g.indices))) <= 1e-10 * (1 + abs(np.array(s['cen'])).max())), f'{{what}}: radii of convert_cartesian_to_spherical'
+for first, second, n1, n2 in ((A, B, 'A', 'B'), (B, A, 'B', 'A')):
+    g1 = build(first)
+    full(g1, first, f'instance {{n1}} alone')
+    g2 = build(second)
+    full(g2, second, f'instance {{n2}} built after {{n1}} was used')
+    full(g1, first, f'instance {{n1}} after {{n2}} was built and used')
+    for i in range(max(len(first['degs']), len(second['degs']))):   # interleaved shell requests
+        for g, s, nm in ((g1, first, n1), (g2, second, n2)):
+            if i < len(s['degs']):
+                res = [AngularGrid(degree=d, method=s['method']).degree for d in s['degs']]
+                check_shell(g, i, s['pts'], s['wts'], res, s['rot'], s['method'], f'instance {{nm}}, requests interleaved with the other instance')
+    full(g2, second, f'instance {{n2}} at the end')
+"""
+
+
+def _oracle_round5(ctx: Ctx, ag, ang, bg, budget):
+    rng = ctx.rng
+    large = budget != "small"
+    parts = _Parts(ctx, "oracle", "atomgrid.oracle-round5")
+
+    def common(method):
+        pairs = _supported(ang, method)
+        pts, wts = _exact_rgrid(ctx)
+        n = len(pts)
+        dmax = min(MAXDEG[method], 15)
+        smax = min(max(sz for d, sz in pairs if d <= dmax), 120)
+        S = rng.randrange(1, 4)
+        mk = lambda: dict(degs=[rng.randrange(0, dmax + 1) for _ in range(n)], sizes=[rng.randrange(0, smax + 1) for _ in range(n)],  # noqa: E731
+                          cen=[float(rng.randrange(-4, 5)) for _ in range(3)], rsect=[v / 64 for v in sorted(rng.sample(range(8, 400), S))],
+                          dsec=[rng.randrange(0, dmax + 1) for _ in range(S + 1)], ssec=[rng.randrange(0, smax + 1) for _ in range(S + 1)])
+        a, b = mk(), mk()
+        p2, w2 = _exact_rgrid(ctx)
+        while len(p2) != n:
+            p2, w2 = _exact_rgrid(ctx)
+        a.update({k + "2": v for k, v in b.items()})
+        a.update(pts=pts, wts=wts, pts2=p2, wts2=w2, rotate=rng.choice([0, rng.randrange(1, 10 ** 5)]), method=method, radius=rng.choice([1.0, 1.5, 0.75]))
+        return a
+
+    # ---- class 21: shell / point counts just above powers of two and round decimal numbers ---------------------------------------
+    def sizes():
+        big = large or ctx.thorough   # the thorough tier goes past 2^19 + 1 radii and 65537 shells
+        cases = [(1025, "spherical", [1, 3]), (4097, "spherical", [1]), (2001, "maxdet", [1, 2, 1]), (1031, "lebedev", [3, 5])]
+        if big:
+            cases += [(20001, "spherical", [1]), (65537, "spherical", [1]), (5003, "lebedev", [3, 5, 7])]
+        for k, (n, method, cyc) in enumerate(cases if big else [cases[0], cases[1], rng.choice(cases[2:])]):
+            seed = rng.randrange(1, 10 ** 5) if n <= 1100 else 0   # SciPy's rotation generator costs 0.1 ms per shell: only on the smaller counts
+            nb = rng.randrange(1, 5)
+            bounds = sorted(rng.uniform(0.1, 5.0) for _ in range(nb))
+            code = SCEN_SIZES.format(n=n, method=method, cycle=cyc, seed=seed, center=[float(rng.randrange(-3, 4)) for _ in range(3)], rseed=rng.randrange(10 ** 6),
+                                     bounds=bounds, dsec=[rng.randrange(1, 60) for _ in range(nb + 1)], dsec_small=[rng.choice(cyc) for _ in range(nb + 1)],
+                                     nlook=(2 ** 19 + 1 + rng.randrange(1, 50)) if big else rng.choice([31234, 65537, 20001]))
+            _exec_scenario(ctx, "atomgrid.AtomGrid:counts-above-block-sizes", code, f"{n} shells, method={method}, degrees cycle {cyc}",
+                           {"shells": n, "method": method, "degrees_cycle": cyc, "rotate": seed}, "counts-above-block-sizes")
+    parts.run("class 21: counts just above block sizes", sizes)
+
+    # ---- classes 23 and 25 ----------------------------------------------------------------------------------------------------------
+    def direct():
+        for k in range(5 if not large else 60):
+            method = METHODS[k % 4]
+            a = common(method)
+            kinds = [("float32", "int32"), ("float16", "uint8"), ("longdouble", "int16"), ("int64", "uint16")] if k % 2 == 0 else \
+                    [("longdouble", "uint8"), ("float16", "int8"), ("float32", "uint32")]
+            if any(fk == "int64" for fk, _ in kinds):   # integer-valued centres / sector radii / radius for the integer kind
+                pass
+            b = dict(a)
+            if k % 2 == 0:
+                b.update(cen=[float(int(v)) for v in a["cen"]], rsect=sorted({float(int(v * 2) + 1) for v in a["rsect"]}), radius=1.0)
+                b["rsect2"] = [b["rsect"][i] + 1.0 for i in range(len(b["rsect"]))]
+                if len(b["rsect"]) != len(a["dsec"]) - 1:   # duplicates removed: shorten the sector lists accordingly
+                    L = len(b["rsect"]) + 1
+                    for key in ("dsec", "ssec", "dsec2", "ssec2"):
+                        b[key] = a[key][:L]
+            # uint8 / int8 hold the sizes (<= 120) and degrees
+            code = SCEN_DIRECT.format(kinds=kinds, **b)
+            _exec_scenario(ctx, "atomgrid.AtomGrid:direct-argument-kinds-and-reuse", code, f"method={method}, kinds={kinds}",
+                           {"method": method, "rgrid_points": b["pts"], "kinds": kinds}, "direct-argument-kinds-and-reuse")
+    parts.run("classes 23, 25: argument kinds given directly; arrays overwritten in place between calls", direct)
+
+    # ---- class 26 -------------------------------------------------------------------------------------------------------------------
+    def pairs():
+        for k in range(6 if not large else 60):
+            method = METHODS[k % 4]
+            a = common(method)
+            A = dict(pts=a["pts"], wts=a["wts"], degs=a["degs"], cen=a["cen"], rot=a["rotate"], method=method)
+            B = dict(A)
+            kind = ["r=0 node", "method", "radial grid", "rotate", "centre", "degrees"][k % 6]
+            if kind == "r=0 node":
+                A["pts"] = [max(v, 0.125) for v in A["pts"]]
+                B["pts"] = [0.0] + A["pts"][1:]
+            elif kind == "method":
+                B["method"] = METHODS[(k + 1) % 4]
+                dm = min(MAXDEG[method], MAXDEG[B["method"]], 15)
+                A["degs"] = B["degs"] = [min(d, dm) for d in A["degs"]]
+            elif kind == "radial grid":
+                B["pts"], B["wts"] = a["pts2"], a["wts2"]
+            elif kind == "rotate":
+                B["rot"] = 0 if A["rot"] else 77
+            elif kind == "centre":
+                B["cen"] = a["cen2"]
+            else:
+                B["degs"] = a["degs2"]
+            code = SCEN_PAIR.format(A=A, B=B)
+            _exec_scenario(ctx, "atomgrid.AtomGrid:two-instances", code, f"instances differing in the {kind}, method={method}", {"A": A, "B": B, "differ_in": kind}, "two-instances:" + kind)
+    parts.run("class 26: two instances differing in one dependency, either order", pairs)
+
+    # ---- classes 22, 24: orders the library itself produces; parameters independent of the data ------------------------------------------
+    def orders_and_parameters():
+        rt, od = importlib.import_module("grid.rtransform"), importlib.import_module("grid.onedgrid")
+        sources = [
+            ("MultiExp o GaussChebyshev (descending nodes)", lambda: rt.MultiExpRTransform(1e-3, 1.5).transform_1d_grid(od.GaussChebyshev(9))),
+            ("Becke grid reversed by slicing", lambda: rt.BeckeRTransform(1e-3, 1.5).transform_1d_grid(od.GaussChebyshev(8))[::-1]),
+            ("two rules back to back", lambda: (lambda a, b: bg.OneDGrid(np.concatenate([a.points, b.points]), np.concatenate([a.weights, b.weights]), (0, np.inf)))(
+                rt.LinearFiniteRTransform(0.0, 2.0).transform_1d_grid(od.GaussLegendre(4)), rt.LinearFiniteRTransform(0.0, 6.0).transform_1d_grid(od.GaussLegendre(5)))),
+            ("Knowles grid shuffled", lambda: (lambda g0, perm: bg.OneDGrid(g0.points[perm], g0.weights[perm], (0, np.inf)))(
+                rt.KnowlesRTransform(1e-3, 1.5, 2).transform_1d_grid(od.GaussChebyshev(7)), np.array([3, 0, 6, 2, 5, 1, 4]))),
+        ]
+        for name, mk in sources:
+            rg0 = mk()
+            P, Wt = np.array(rg0.points, dtype=float), np.array(rg0.weights, dtype=float)
+            method = rng.choice(METHODS)
+            pairs_ = _supported(ang, method)
+            ctx.count(["orders", name, method], nontrivial=True, tag="oracle:orders:" + name.split(" (")[0])
+            degs = [rng.randrange(0, MAXDEG[method] + 1) for _ in P]
+            _oracle_grid(ctx, ag, ang, bg, method, P, Wt, degs, rng.choice([0, rng.randrange(1, 10 ** 5)]), _rand_center(ctx), "atomgrid.AtomGrid", mk_rgrid=mk)
+            # sectors by the radius of each node, whatever the order; sector radii unrelated to the range of the grid (class 24):
+            # all nodes below the first bound, all beyond the last, bounds inside the range
+            for what, rsect in (("inside", sorted(rng.uniform(float(P.min()), float(P.max())) for _ in range(2))), ("all nodes below", [float(P.max()) * 2, float(P.max()) * 3]),
+                                ("all nodes beyond", [float(P.min()) / 3, float(P.min()) / 2]), ("a bound on a node", sorted([float(P[len(P) // 2]), float(P.max()) * 1.5]))):
+                dsec = [rng.randrange(0, MAXDEG[method] + 1) for _ in range(3)]
+                g = ag.AtomGrid.from_pruned(mk(), 1.0, r_sectors=rsect, d_sectors=dsec, method=method)
+                want = [_least_degree(pairs_, dsec[sum(1 for b in rsect if b < r)])[0] for r in P]
+                if [int(d) for d in g.degrees] != want:
+                    i = next(j for j, (x, y) in enumerate(zip(g.degrees, want)) if int(x) != y)
+                    ctx.fail("oracle", "atomgrid.AtomGrid.from_pruned", f"{name}, sector radii {what}: shell {i} at r={P[i]!r} has degree {int(g.degrees[i])}, its sector asks for {want[i]} "
+                             f"[r_sectors={rsect}, d_sectors={dsec}, method={method}]", witness={"rgrid_points": P.tolist(), "r_sectors": rsect, "d_sectors": dsec, "method": method},
+                             snippet=SNIP_PRUNED.format(pts=P.tolist(), wts=Wt.tolist(), radius=1.0, rsect=rsect, dsec=dsec, method=method))
+        # class 24: one transform object applied to two different 1-D grids in sequence, both radial grids then carry atomic grids; one
+        # radial grid object shared by grids of different methods / degrees / centres. Reference: fresh objects for every grid.
+        for T in (lambda: rt.HandyModRTransform(1e-3, 20.0, 2), lambda: rt.KnowlesRTransform(1e-3, 1.5, 2), lambda: rt.BeckeRTransform(1e-3, 1.5)):
+            t = T()
+            rules = [od.GaussChebyshev(5), od.GaussChebyshev(8), od.GaussLegendre(6)]
+            shared = [t.transform_1d_grid(r) for r in rules]
+            fresh = [T().transform_1d_grid(r) for r in rules]
+            method = rng.choice(METHODS)
+            for j, (a, b) in enumerate(zip(shared, fresh)):
+                degs = [rng.randrange(0, MAXDEG[method] + 1) for _ in a.points]
+                cen = [float(rng.randrange(-3, 4)) for _ in range(3)]
+                ga = ag.AtomGrid(a, degrees=degs, center=cen, rotate=5, method=method)
+                gb = ag.AtomGrid(b, degrees=degs, center=cen, rotate=5, method=method)
+                ga2 = ag.AtomGrid(a, degrees=degs[::-1], center=[0.0, 0.0, 1.0], rotate=0, method=METHODS[(METHODS.index(method) + 1) % 4] if max(degs) <= 17 else method)
+                gc = ag.AtomGrid(a, degrees=degs, center=cen, rotate=5, method=method)   # the shared radial grid again, after another grid used it
+                ctx.count(["shared-transform", type(t).__name__, j, method, degs], nontrivial=True, tag="oracle:shared-transform")
+                if not (np.array_equal(ga.points, gb.points) and np.array_equal(ga.weights, gb.weights) and np.array_equal(gc.points, gb.points) and np.array_equal(gc.weights, gb.weights)
+                        and np.array_equal(ga.get_shell_grid(len(degs) - 1).weights, gb.get_shell_grid(len(degs) - 1).weights)):
+                    ctx.fail("oracle", "atomgrid.AtomGrid:shared-radial-objects", f"the atomic grid on the {j + 1}. radial grid produced by one {type(t).__name__} object (or on a radial grid "
+                             f"object that already carries another atomic grid) differs from the one built from fresh objects [method={method}, degrees={degs}]",
+                             witness={"transform": type(t).__name__, "rule": j, "method": method, "degrees": degs})
+    parts.run("classes 22, 24: library-made orders; parameters independent of the data", orders_and_parameters)
     parts.finish()
 
 
